@@ -49,7 +49,7 @@ var baseLetters = []int{'a', 'b', 'c'}
 func cfgC01() GenCfg {
 	return GenCfg{MaxDepth: 4, Letters: []int{'a', 'b', 'c', 'A', 'B', 0xe9, 0xc9, '_', ' ', '\n', '-', 0x1F600, 0x301},
 		Lookbehind: true, Lookahead: true, Refs: true, Conds: true, Anchors: true, Atomic: true,
-		InlineOpts: "ims", Named: true, Shorthands: true, Subtraction: true, Nullable: true, NestedRep: true, Dot: true, G: false, MaxGroups: 5, MaxRepBound: 3, MaxNodes: 12}
+		InlineOpts: "ims", Named: true, Shorthands: true, Subtraction: true, Nullable: true, NestedRep: true, Dot: true, G: true, MaxGroups: 5, MaxRepBound: 3, MaxNodes: 12}
 }
 
 type Gen struct {
@@ -251,10 +251,9 @@ func (g *Gen) item(d int) *Tree {
 		// balancing group: pops the last capture of an existing named group (and optionally captures the interval)
 		nm := g.nms[g.pick(len(g.nms))]
 		a = T("bal", g.alt(d-1))
-		if g.chance(0.5) {
-			a.N.Nm = "-" + nm
-		} else {
-			a.N.Nm = "z" + nm + "-" + nm
+		a.N.Cls = nm
+		if !g.chance(0.5) {
+			a.N.Nm = "z" + nm
 		}
 	case roll < 12:
 		a = g.seq(d-1, 2) // printed with (?: ) when quantified
@@ -367,6 +366,11 @@ func groupInfo(t *Tree, globalN bool) (unnamed int, names []string) {
 	var rec func(t *Tree, n bool)
 	rec = func(t *Tree, n bool) {
 		switch t.N.Op {
+		case "bal":
+			if t.N.Nm != "" && !seen[t.N.Nm] {
+				seen[t.N.Nm] = true
+				names = append(names, t.N.Nm)
+			}
 		case "grp":
 			if t.N.Nm != "" {
 				if !seen[t.N.Nm] {
@@ -475,10 +479,12 @@ func (g *Gen) BalPattern(rtl bool) *Tree {
 		open = Rep(open, 1, -1, g.chance(0.2))
 	}
 	var bal *Tree = T("bal", piece())
-	if g.chance(0.5) {
-		bal.N.Nm = "-" + nm
-	} else {
-		bal.N.Nm = "z" + nm + "-" + nm
+	bal.N.Cls = nm
+	switch g.pick(4) {
+	case 0, 1:
+		bal.N.Nm = "z" + nm
+	case 2:
+		bal.N.Nm = nm // pops and pushes the same group
 	}
 	if g.chance(0.3) {
 		bal = Rep(bal, g.pick(2), -1, g.chance(0.2))
